@@ -391,6 +391,8 @@ def run(prog, run):
     rule_int_bounds(prog, run)
     rule_single_consumption(prog, run)
     rule_escaping(prog, run, classes)
+    rule_descendant_axis(prog, run)
+    rule_offset_sign(prog, run)
 
 
 # --------------------------------------------------------------------------- R3
@@ -711,3 +713,87 @@ def rule_escaping(prog, run, classes):
         if not bad:
             run.ok(rid, f.loc(), '%s: QXmlStreamWriter only' % f.display()[:70], nontrivial=False)
     run.extra['raw_writes_allowed'] = nraw
+
+
+# descendant-axis look-ups that were read and found harmless (the first match in document order is the direct child)
+DESCENDANT_OK = {
+    'QXmppRpcMarshaller::demarshall': '<member><name/><value/></member>: item(0) of name/value is the direct child because it precedes any nested struct in document order',
+}
+
+
+def rule_descendant_axis(prog, run):
+    rid = run.rule('C01.R7', 'parsers select direct children only: no descendant-axis look-up (elementsByTagName/elementsByTagNameNS), which also collects same-named '
+                             'elements of nested payloads and re-attributes them to the outer object', floor=1)
+    n = 0
+    for f in prog.fns.values():
+        for i, nd in f.calls():
+            cn = f.cname(nd)
+            if cn in ('QDomElement::elementsByTagName', 'QDomElement::elementsByTagNameNS', 'QDomDocument::elementsByTagName', 'QDomDocument::elementsByTagNameNS'):
+                n += 1
+                run.instance(rid)
+                top = f
+                while top.is_lambda and top.parent_id in prog.fns:
+                    top = prog.fns[top.parent_id]
+                if top.qname in DESCENDANT_OK:
+                    run.ok(rid, f.loc(i), '%s: listed exception (%s)' % (top.qname, DESCENDANT_OK[top.qname][:60]), nontrivial=False)
+                else:
+                    run.violation(rid, '%s#descendant-lookup' % top.qname, f.loc(i),
+                                  '%s collects all descendants named %s, not only the children of the element being parsed: elements of the same name inside nested '
+                                  'payloads are attributed to the outer object and written twice on the next serialization' % (top.display()[:60], f.fmt(nd['args'][-1], inline=False)[:30]))
+    return n
+
+
+def rule_offset_sign(prog, run):
+    """the sign of a formatted time-zone offset is the sign of the whole offset, not of its hour component (-00:30 must not become +00:30)"""
+    rid = run.rule('C01.R8', 'timezoneOffsetToString takes the sign from the whole offset: the "-"/"+" decision (or signed format) is made on the argument itself, '
+                             'not on a quotient of it', floor=1)
+    f = prog.fn('QXmppUtils::timezoneOffsetToString', required=False)
+    if f is None:
+        raise AnalysisBroken('C01.R8: QXmppUtils::timezoneOffsetToString not found')
+    run.instance(rid)
+
+    def derives_only_from_quotient(nid, depth=0):
+        """expression is p0 / c (or a local defined so)"""
+        n = f.nodes[f.skip(nid)]
+        bo = f.binop(f.skip(nid))
+        if bo and bo[0] in ('/', '>>'):
+            return True
+        if n['k'] == 'var' and n.get('vk') == 'local' and depth < 4:
+            d = f.single_def(n['decl'])
+            return d is not None and derives_only_from_quotient(d, depth + 1)
+        if n['k'] == 'call' and f.cname(n) in ('qAbs', 'std::abs', 'abs') and n.get('args'):
+            return False
+        return False
+    decisions = []
+    for i, n in enumerate(f.nodes):
+        if n['k'] == 'cond' or (n['k'] == 'bin' and False):
+            lits = {f.strval(n['a']), f.strval(n['b'])} | {chr(f.const_value(x)[1]) if f.const_value(x) and f.const_value(x)[0] in ('char', 'int') and 0 < f.const_value(x)[1] < 128 else None for x in (n['a'], n['b'])}
+            if {'-', '+'} <= lits:
+                bo = f.binop(f.skip(n['c']))
+                if bo and bo[0] in ('<', '>', '<=', '>='):
+                    operand = bo[1] if f.const_value(bo[2]) is not None else bo[2]
+                    decisions.append(('cond', i, operand))
+    for b in f.blocks.values():
+        t = b.get('term')
+        if t and t.get('k') == 'if' and 'cond' in t:
+            bo = f.binop(f.skip(t['cond']))
+            if bo and bo[0] in ('<', '>', '<=', '>=') and f.const_value(bo[2]) == ('int', 0):
+                decisions.append(('if', t['cond'], bo[1]))
+    # signed printf-style formats
+    for i, n in f.calls():
+        for a in n.get('args', []):
+            sv = f.strval(a)
+            if sv and '%+' in sv:
+                rest = [x for x in n['args'] if x != a]
+                if rest:
+                    decisions.append(('format', i, rest[0]))
+    sign_decisions = [d for d in decisions if d[0] in ('cond', 'format')] or [d for d in decisions if d[0] == 'if']
+    if not sign_decisions:
+        raise AnalysisBroken('C01.R8: no sign decision recognised in timezoneOffsetToString (restructured beyond what the rule follows)')
+    bad = [d for d in sign_decisions if derives_only_from_quotient(d[2])]
+    if bad:
+        run.violation(rid, 'timezoneOffsetToString#sign-from-quotient', f.loc(bad[0][1]),
+                      'the sign of the formatted offset is decided on %s, a quotient of the offset: offsets between -59 and -1 minutes are written with "+" and parse back '
+                      'with the wrong sign' % f.fmt(bad[0][2], inline=True)[:40])
+    else:
+        run.ok(rid, f.loc(sign_decisions[0][1]), 'sign decided on %s' % f.fmt(sign_decisions[0][2], inline=False)[:30])
